@@ -360,7 +360,7 @@ def run_go_unit(unit):
             slots = [go_walk(m, probe, name, l.path) for l in leaves]
             types = [cont[key].t for cont, key in slots]
             inputs = [list(v) for v in vecs]
-            bytevals = range(256) if (tier != "quick" or len(leaves) <= 1) else GO_BYTES_QUICK
+            bytevals = range(256) if ((tier != "quick" and full_sweeps_for(c, tier)) or len(leaves) <= 1) else GO_BYTES_QUICK
             for bg in (0, -1):
                 base = [(bg if l.kind != "bool" else (bg & 1)) for l in leaves]
                 for li, l in enumerate(leaves):
@@ -429,4 +429,8 @@ def go_units(pid, tier):
     idx = list(range(len(sp)))
     if tier == "quick":
         idx = idx[::3]
+    else:
+        # thorough: every state of the quick space (complete byte sweeps) and every 8th of the additional states (the quick byte alphabet);
+        # the interpreter is two orders of magnitude slower than compiled C
+        idx = [i for i in idx if full_sweeps_for(sp[i], tier) or i % 8 == 0]
     return [(pid, tier, idx[i:i + GO_BATCH]) for i in range(0, len(idx), GO_BATCH)]
